@@ -83,6 +83,9 @@ type Args struct {
 	Opt int64 `graphql:",optional"`
 }
 
+type ScaleArgs struct{ Mul int64 }
+type ScaleArgsToo struct{ Mul int64 }
+
 type Sub struct {
 	X int64
 	Y *string
@@ -166,6 +169,21 @@ func buildFixture() *schemabuilder.Schema {
 		}
 		return out, nil
 	}, two)
+	// a batch field whose fallback declares its own (identical) args struct type, with the batch function and with
+	// the fallback in use
+	for name, useBatch := range map[string]bool{"scaledBatch": true, "scaledFallback": false} {
+		useBatch := useBatch
+		shape.BatchFieldFuncWithFallback(name,
+			func(ctx context.Context, in map[batch.Index]*Shape, args ScaleArgs) (map[batch.Index]*int64, error) {
+				out := map[batch.Index]*int64{}
+				for i, sh := range in {
+					out[i] = p(sh.I * args.Mul)
+				}
+				return out, nil
+			},
+			func(ctx context.Context, sh *Shape, args ScaleArgsToo) (*int64, error) { return p(sh.I * args.Mul), nil },
+			func(context.Context) bool { return useBatch })
+	}
 	shape.FieldFunc("leaves", func(sh *Shape) []Leaf { return sh.VLs })
 	shape.FieldFunc("union", func(sh *Shape) *Either {
 		if sh.PL != nil {
